@@ -357,6 +357,16 @@ def _children_after(magpy, Bad):
         return "Foreign:" + type(e).__name__
 
 
+def _coll_junk(magpy, attr, val):
+    c = magpy.Collection(magpy.Sensor(), magpy.Collection(), magpy.misc.Dipole(moment=(1, 2, 3)))
+    n = len(c.children)
+    try:
+        setattr(c, attr, val)
+        return f"accepted, {n} -> {len(c.children)} children"
+    except Exception as e:  # noqa: BLE001
+        return type(e).__name__
+
+
 def observe(magpy, Bad):
     """behaviour that is NOT counted as a violation (pinned by tests, or accepted beyond the documented format): what the real code does
     now, so that a change shows in the evidence"""
@@ -406,6 +416,11 @@ def observe(magpy, Bad):
         "Cuboid().field_func = f [read-only attribute]": kind(lambda: setattr(magpy.magnet.Cuboid(), "field_func", None)),
         "getB(pixel_agg='ndim') (accepted by the check, TypeError inside getBH_level2)": kind(lambda: d.getB(S(pixel=[(1, 2, 3), (2, 3, 4)]), pixel_agg="ndim")),
         "Collection(a, b).children = [a, 1] -> rejected; children afterwards": _children_after(magpy, Bad),
+        "Collection().children = 5 [self.add(*5): TypeError; state kept]": kind(lambda: setattr(magpy.Collection(S()), "children", 5)),
+        "Collection().children = None": kind(lambda: setattr(magpy.Collection(S()), "children", None)),
+        "Collection(sub).collections = 5 (accepted: every sub-collection is dropped)": _coll_junk(magpy, "collections", 5),
+        "Collection(sub).collections = [1, 'abc'] (accepted: junk entries are filtered out)": _coll_junk(magpy, "collections", [1, "abc"]),
+        "Collection(sensor).sensors = [a source] (accepted: the source is filtered out, the sensors are dropped)": _coll_junk(magpy, "sensors", [magpy.misc.Dipole(moment=(1, 2, 3))]),
         # same coercion as the repaired make_float_array, outside attribute assignment
         "getB(observers=(1, None, 3))": kind(lambda: d.getB((1, None, 3))),
         "getB(observers=(1, '2', 3))": kind(lambda: d.getB((1, "2", 3))),
